@@ -183,7 +183,7 @@ func racSame(a, b interface{}) bool {
 // ---- generators (seeded; boundary-heavy pools)
 
 var racCoeffs = []string{"0", "1", "2", "3", "5", "7", "9", "10", "15", "25", "45", "50", "55", "99", "100", "101", "125", "995", "999", "1000", "1234", "9995", "9999", "12345", "99995", "99999", "100000", "123456789", "999999999", "1000000001", "9223372036854775807", "9223372036854775808", "18446744073709551615", "18446744073709551616", "300000001", "5000001", "340282366920938463463374607431768211455", "340282366920938463463374607431768211456", "10000000000000000000000000000000000000001", "99999999999999999999999999999999999999999999"}
-var racExps = []int32{0, 0, 0, -1, 1, -2, 2, -3, 3, -5, 5, -7, 7, -8, -9, 10, -10, 19, -20, 38, -40}
+var racExps = []int32{0, 0, 0, -1, 1, -2, 2, -3, 3, -5, 5, -7, 7, -8, -9, 10, -10, 19, -20, 38, -40, 150, -160, 200, 301}
 var racModes = []Rounder{RoundDown, RoundHalfUp, RoundHalfEven, RoundCeiling, RoundFloor, RoundHalfDown, RoundUp, Round05Up, "", "bogus"}
 var racInts = []int64{0, 1, -1, 2, 3, 5, 9, 10, -10, 100, 127, 128, 1000, 100000, -100000, 100001, -100001, 2147483647, -2147483648, 9223372036854775807, -9223372036854775808, 4294967295}
 
@@ -252,6 +252,22 @@ func genSlice(rng__ *rand.Rand) []int64 {
 		xs[i] = []int64{0, 1, -1, 2, -3, 5, -7, 100000, -100000, 100001, -100001}[rng__.Intn(11)]
 	}
 	return xs
+}
+// racRescale returns the same (or a neighbouring) value with the coefficient scaled by a power of ten:
+// numerically equal or adjacent operands with very different exponents.
+func racRescale(d *Decimal, rng__ *rand.Rand) *Decimal {
+	n := cpDec(d)
+	k := []int64{1, 2, 5, 40, 129, 130, 200}[rng__.Intn(7)]
+	p := new(BigInt).Exp(NewBigInt(10), NewBigInt(k), nil)
+	n.Coeff.Mul(&n.Coeff, p)
+	n.Exponent -= int32(k)
+	switch rng__.Intn(3) {
+	case 0:
+		n.Coeff.Add(&n.Coeff, NewBigInt(1))
+	case 1:
+		n.Coeff.Mul(&n.Coeff, NewBigInt(2))
+	}
+	return n
 }
 func cpDec(d *Decimal) *Decimal {
 	if d == nil {
@@ -437,6 +453,9 @@ func (W *World) racTest(fn *ssa.Function, fc *FuncContract) (string, error) {
 		for j := i + 1; j < len(params); j++ {
 			if params[i].ptrType != "" && params[i].ptrType == params[j].ptrType {
 				fmt.Fprintf(&sb, "\t\tif rng__.Intn(4) == 0 { %s = %s }\n", params[j].name, params[i].name)
+				if params[i].ptrType == "Decimal" {
+					fmt.Fprintf(&sb, "\t\tif %s != nil && %s != nil && rng__.Intn(5) == 0 { if rng__.Intn(2) == 0 { %s = racRescale(%s, rng__) } else { %s = racRescale(%s, rng__) } }\n", params[i].name, params[j].name, params[j].name, params[i].name, params[i].name, params[j].name)
+				}
 			}
 		}
 	}
